@@ -8,7 +8,7 @@ import z3
 from . import src as S
 from .core import *  # noqa: F401,F403
 from .vals import *  # noqa: F401,F403
-from .vals import SEQ, MapSeqP, SetP, VMapSlot, VGapTuple
+from .vals import SEQ, ROWS, IntRowsP, MapSeqP, SetP, VMapSlot, VGapTuple
 from .schema import SCHEMA, CLASS_MODULE
 
 MAXCP = 0x10FFFF
@@ -75,6 +75,11 @@ class ExprMixin:
             if ref not in self.payload0:
                 self.payload0[ref] = IntMapP(z3.Array(name + "?in", z3.IntSort(), z3.BoolSort()), z3.Array(name, z3.IntSort(), z3.IntSort()))
             return VDict(ref)
+        if ty.startswith("introws:"):
+            ref = name
+            if ref not in self.payload0:
+                self.payload0[ref] = IntRowsP(z3.Array(name + "?in", z3.IntSort(), z3.BoolSort()), z3.Const(name + "!rows", ROWS), int(ty.split(":")[1]))
+            return VDict(ref)
         if ty == "cache":
             ref = name
             if ref not in self.payload0:
@@ -118,6 +123,10 @@ class ExprMixin:
             return h[ref]
         if ref in self.payload0:
             return self.payload0[ref]
+        if old and ref in self.payload:
+            # a list created after entry (a local) mentioned inside old(...): it has no entry value, the clause means
+            # its current value (only entry-state objects are looked up in the snapshot)
+            return self.payload[ref]
         raise Unsupported(f"no payload for {ref}")
 
     def mut_payload(self, ref: str):
@@ -153,7 +162,7 @@ class ExprMixin:
             return self.list_len(p) > 0
         if isinstance(v, VTuple):
             return z3.BoolVal(len(v.items) > 0)
-        if isinstance(v, VDict) and isinstance(self.get_payload(v.ref, self.use_old), (IntMapP, MapSeqP, SetP)):
+        if isinstance(v, VDict) and isinstance(self.get_payload(v.ref, self.use_old), (IntMapP, MapSeqP, SetP, IntRowsP)):
             raise Unsupported("truthiness of a symbolic map/set")
         if isinstance(v, VDict):
             return z3.BoolVal(len(self.get_payload(v.ref).items) > 0)
@@ -625,6 +634,11 @@ class ExprMixin:
                 return res
             i = self.as_int(idx, "list index")
             n = self.list_len(p)
+            if (not self.spec_mode and fr is self.frames[0] and (self.contract.ghost or {}).get("nowrap")
+                    and not z3.is_int_value(z3.simplify(i))):
+                # contracts that opt in: a computed index must not wrap around (negative indices are legal Python
+                # but never intended in this code base)
+                self.oblige("GUARD", f"{fr.ords.of(node, 'subscript')}/index-nonneg", i >= 0, node)
             self.safe_or_raise(z3.And(i >= -n, i < n), "IndexError", node, fr, "subscript")
             j = z3.simplify(self.norm_index(i, n)) if not self.spec_mode else i
             if isinstance(p, IntListP):
@@ -666,6 +680,17 @@ class ExprMixin:
             k = self.as_int(idx)
             self.safe_or_raise(z3.Select(p.keys, k), "KeyError", node, fr, "subscript")
             return VInt(z3.Select(p.vals, k))
+        if isinstance(base, VDict) and isinstance(self.get_payload(base.ref, self.use_old), IntRowsP):
+            p = self.get_payload(base.ref, self.use_old)
+            k = self.as_int(idx)
+            self.safe_or_raise(z3.Select(p.keys, k), "KeyError", node, fr, "subscript")
+            return VMapSlot(base.ref, k)
+        if isinstance(base, VMapSlot) and isinstance(self.get_payload(base.ref, self.use_old), IntRowsP):
+            p = self.get_payload(base.ref, self.use_old)
+            i = self.as_int(idx)
+            self.safe_or_raise(z3.And(i >= -p.rowlen, i < p.rowlen), "IndexError", node, fr, "subscript")
+            j = z3.simplify(self.norm_index(i, z3.IntVal(p.rowlen))) if not self.spec_mode else i
+            return VInt(z3.Select(z3.Select(p.vals, base.key), j))
         if isinstance(base, VDict):
             p = self.get_payload(base.ref)
             if isinstance(idx, VStr) and idx.kind == "lit":
@@ -885,7 +910,7 @@ class ExprMixin:
             return z3.Select(self.get_payload(container.ref, self.use_old).mem, self.atom_term(x))
         if isinstance(container, VDict) and isinstance(self.get_payload(container.ref, self.use_old), MapSeqP):
             return z3.Select(self.get_payload(container.ref, self.use_old).keys, self.atom_term(x))
-        if isinstance(container, VDict) and isinstance(self.get_payload(container.ref, self.use_old), IntMapP):
+        if isinstance(container, VDict) and isinstance(self.get_payload(container.ref, self.use_old), (IntMapP, IntRowsP)):
             return z3.Select(self.get_payload(container.ref, self.use_old).keys, self.as_int(x))
         if isinstance(container, VAtom):
             # membership in an opaque immutable list value (Rule.alt): uninterpreted predicate
